@@ -482,6 +482,197 @@ Proof.
   cbn [app]. rewrite forallb_app. cbn [forallb]. rewrite forallb_app. cbn [forallb]. rewrite A, B, C. reflexivity.
 Qed.
 
+(* ------------------------------------------------------------------ time and timestamp texts *)
+
+Lemma is_hex_safe c : is_hex c = true -> safe_char c = true.
+Proof.
+  unfold is_hex, is_digit, safe_char. intro H.
+  assert (48 <= c <= 57 \/ 65 <= c <= 70 \/ 97 <= c <= 102) as R.
+  { apply orb_true_iff in H as [H|H]; [apply orb_true_iff in H as [H|H]|];
+      apply andb_true_iff in H as [A B]; apply N.leb_le in A, B; lia. }
+  replace (c =? 39) with false by (symmetry; apply N.eqb_neq; lia).
+  replace (c =? 92) with false by (symmetry; apply N.eqb_neq; lia). reflexivity.
+Qed.
+
+Lemma take_digits_safe base : forall n s ds r, take_digits base n s = (ds, r) -> forallb safe_char ds = true.
+Proof.
+  induction n as [|n IH]; intros s ds r H.
+  - cbn [take_digits] in H. injection H as <- <-. reflexivity.
+  - destruct s as [|c s']; cbn [take_digits] in H; [injection H as <- <-; reflexivity|].
+    unfold digit_val in H. destruct (is_hex c && (hex_val c <? base)) eqn:E.
+    + destruct (take_digits base n s') as [a b] eqn:T. injection H as <- <-.
+      apply andb_true_iff in E as [E _]. cbn [forallb]. rewrite (is_hex_safe c E), (IH _ _ _ T). reflexivity.
+    + injection H as <- <-. reflexivity.
+Qed.
+
+Lemma opt_comp_safe sep n s d r : safe_char sep = true -> opt_comp sep n s = (d, r) -> forallb safe_char d = true.
+Proof.
+  intros Hs. unfold opt_comp. destruct s as [|c s']; [intro H; injection H as <- <-; reflexivity|].
+  destruct (c =? sep) eqn:E; [|intro H; injection H as <- <-; reflexivity].
+  destruct (take_n_digits n s') as [[dd r']|] eqn:T; intro H; injection H as <- <-; [|reflexivity].
+  apply N.eqb_eq in E. subst c. cbn [forallb]. rewrite Hs, (take_n_digits_safe _ _ _ _ T). reflexivity.
+Qed.
+
+Theorem time_inner_safe inp val rest : time_inner inp = Some (val, rest) -> forallb safe_char val = true.
+Proof.
+  unfold time_inner. destruct (take_n_digits 2 inp) as [[hh r0]|] eqn:H0; [|discriminate].
+  destruct (opt_comp 58 2 r0) as [mm r1] eqn:H1. destruct (opt_comp 58 2 r1) as [ss r2] eqn:H2.
+  pose proof (take_n_digits_safe _ _ _ _ H0) as S0.
+  pose proof (opt_comp_safe 58 _ _ _ _ eq_refl H1) as S1. pose proof (opt_comp_safe 58 _ _ _ _ eq_refl H2) as S2.
+  (* fractional seconds *)
+  assert (forall ms r3, match r2 with
+                        | c :: r => if c =? 46 then let '(ds, r') := take_digits 10 6 r in
+                                                    match ds with [] => ([], r2) | _ => (c :: ds, r') end
+                                    else ([], r2)
+                        | [] => ([], r2) end = (ms, r3) -> forallb safe_char ms = true) as Sms.
+  { intros ms r3. destruct r2 as [|c r]; [intro H; injection H as <- <-; reflexivity|].
+    destruct (c =? 46) eqn:E; [|intro H; injection H as <- <-; reflexivity].
+    destruct (take_digits 10 6 r) as [ds r'] eqn:T. pose proof (take_digits_safe _ _ _ _ _ T) as Sd.
+    destruct ds as [|x ds']; intro H; injection H as <- <-; [reflexivity|].
+    apply N.eqb_eq in E. subst c. cbn [forallb] in *. exact Sd. }
+  destruct (match r2 with
+            | c :: r => if c =? 46 then let '(ds, r') := take_digits 10 6 r in
+                                        match ds with [] => ([], r2) | _ => (c :: ds, r') end
+                        else ([], r2)
+            | [] => ([], r2) end) as [ms r3] eqn:H3.
+  specialize (Sms ms r3 eq_refl).
+  (* time zone *)
+  assert (forall tz r4, match r3 with
+                        | c :: r =>
+                            if c =? 90 then ([90], r)
+                            else if (c =? 43) || (c =? 45) then
+                              match take_n_digits 2 r with
+                              | Some (h2, r') =>
+                                  let r'' := match r' with k :: t => if k =? 58 then t else r' | [] => r' end in
+                                  match take_n_digits 2 r'' with
+                                  | Some (m2, r''') => (c :: h2 ++ m2, r''')
+                                  | None => ([], r3) end
+                              | None => ([], r3) end
+                            else ([], r3)
+                        | [] => ([], r3) end = (tz, r4) -> forallb safe_char tz = true) as Stz.
+  { intros tz r4. destruct r3 as [|c r]; [intro H; injection H as <- <-; reflexivity|].
+    destruct (c =? 90) eqn:EZ; [intro H; injection H as <- <-; reflexivity|].
+    destruct ((c =? 43) || (c =? 45)) eqn:ES; [|intro H; injection H as <- <-; reflexivity].
+    destruct (take_n_digits 2 r) as [[h2 r']|] eqn:T1; [|intro H; injection H as <- <-; reflexivity].
+    cbv zeta.
+    destruct (take_n_digits 2 match r' with k :: t0 => if k =? 58 then t0 else r' | [] => r' end) as [[m2 r''']|] eqn:T2;
+      intro H; injection H as <- <-; [|reflexivity].
+    cbn [forallb]. rewrite forallb_app, (take_n_digits_safe _ _ _ _ T1), (take_n_digits_safe _ _ _ _ T2).
+    assert (safe_char c = true) as ->; [|reflexivity].
+    apply orb_true_iff in ES as [ES|ES]; apply N.eqb_eq in ES; subst c; reflexivity. }
+  destruct (match r3 with
+            | c :: r =>
+                if c =? 90 then ([90], r)
+                else if (c =? 43) || (c =? 45) then
+                  match take_n_digits 2 r with
+                  | Some (h2, r') =>
+                      let r'' := match r' with k :: t => if k =? 58 then t else r' | [] => r' end in
+                      match take_n_digits 2 r'' with
+                      | Some (m2, r''') => (c :: h2 ++ m2, r''')
+                      | None => ([], r3) end
+                  | None => ([], r3) end
+                else ([], r3)
+            | [] => ([], r3) end) as [tz r4] eqn:H4.
+  specialize (Stz tz r4 eq_refl).
+  intro H. injection H as <- <-. rewrite !forallb_app, S0, S1, S2, Sms, Stz. reflexivity.
+Qed.
+
+(* every date / time / timestamp literal the lexer produces carries only harmless characters *)
+Theorem date_token_safe s l r : date_token s = Some (l, r) ->
+  match l with LDate v | LTime v | LTimestamp v => forallb safe_char v = true | _ => False end.
+Proof.
+  unfold date_token. destruct s as [|a s']; [discriminate|].
+  destruct ((a =? 64) && match s' with c :: _ => is_digit c | [] => false end); [|discriminate].
+  assert (forall x, match time_inner s' with
+                    | Some (tm, r2) => if end_expr r2 then Some (LTime tm, r2) else None
+                    | None => None end = Some x ->
+          match fst x with LDate v | LTime v | LTimestamp v => forallb safe_char v = true | _ => False end) as HT.
+  { intros x. destruct (time_inner s') as [[tm r2]|] eqn:T; [|discriminate].
+    destruct (end_expr r2); [|discriminate]. intro H. injection H as <-. cbn [fst]. exact (time_inner_safe _ _ _ T). }
+  destruct (match date_inner s' with
+            | Some (d, t :: r1) =>
+                if t =? 84 then
+                  match time_inner r1 with
+                  | Some (tm, r2) => if end_expr r2 then Some (LTimestamp (d ++ [84] ++ tm), r2) else None
+                  | None => None end
+                else None
+            | _ => None end) as [[l0 r0]|] eqn:TS.
+  - intro H. injection H as <- <-.
+    destruct (date_inner s') as [[d [|t r1]]|] eqn:D; try discriminate.
+    destruct (t =? 84); [|discriminate]. destruct (time_inner r1) as [[tm r2]|] eqn:T; [|discriminate].
+    destruct (end_expr r2); [|discriminate]. injection TS as <- <-.
+    rewrite forallb_app, (date_inner_safe _ _ _ D). cbn [app forallb]. rewrite (time_inner_safe _ _ _ T). reflexivity.
+  - destruct (date_inner s') as [[d r1]|] eqn:D.
+    + destruct (end_expr r1).
+      * intro H. injection H as <- <-. exact (date_inner_safe _ _ _ D).
+      * intro H. exact (HT (l, r) H).
+    + intro H. exact (HT (l, r) H).
+Qed.
+
+(* the sqlite rewrite of a trailing time zone: [+-]HHMM becomes [+-]HH:MM, anything else is left alone; it adds
+   nothing but a colon *)
+Lemma tz_colon_zone pre sg h1 h2 m1 m2 :
+  is_digit h1 = true -> is_digit h2 = true -> is_digit m1 = true -> is_digit m2 = true -> (sg =? 43) || (sg =? 45) = true ->
+  tz_colon (pre ++ [sg; h1; h2; m1; m2]) = pre ++ [sg; h1; h2; 58; m1; m2].
+Proof.
+  intros A B C D E. unfold tz_colon. rewrite rev_app_distr.
+  change (rev [sg; h1; h2; m1; m2] ++ rev pre) with (m2 :: m1 :: h2 :: h1 :: sg :: rev pre). cbv iota beta.
+  rewrite D, C, B, A, E. cbn [andb]. rewrite rev_involutive. reflexivity.
+Qed.
+
+Lemma tz_colon_safe v : forallb safe_char v = true -> forallb safe_char (tz_colon v) = true.
+Proof.
+  intro H. unfold tz_colon.
+  destruct (rev v) as [|m2 [|m1 [|h2 [|h1 [|sg pre]]]]] eqn:E; try exact H.
+  destruct (is_digit m2 && is_digit m1 && is_digit h2 && is_digit h1 && ((sg =? 43) || (sg =? 45))); [|exact H].
+  assert (forallb safe_char (rev v) = true) as Hr.
+  { rewrite forallb_forall in *. intros x Hx. apply H. apply in_rev. exact Hx. }
+  rewrite E in Hr. cbn [forallb] in Hr.
+  repeat (apply andb_true_iff in Hr as [? Hr]).
+  rewrite forallb_app. cbn [forallb].
+  assert (forallb safe_char (rev pre) = true) as ->.
+  { rewrite forallb_forall in *. intros x Hx. apply Hr. apply in_rev. exact Hx. }
+  repeat match goal with H : safe_char _ = true |- _ => rewrite H; clear H end. reflexivity.
+Qed.
+
+(* the token structure of an emitted date / time / timestamp literal: sqlite  FN ( 'text' ) , elsewhere  TYPE 'text' ;
+   the string token carries exactly the literal's text (sqlite: with the colon in the zone) *)
+Definition datetime_fns (l : lit) : option (str * str * str) :=
+  match l with
+  | LDate v => Some (s_DATE, s_DATE, v) | LTime v => Some (s_TIME, s_TIME, v) | LTimestamp v => Some (s_DATETIME, s_TIMESTAMP, v)
+  | _ => None
+  end.
+
+Theorem datetime_literal_tokens d bs s l r : date_token s = Some (l, r) ->
+  exists fs fo v, datetime_fns l = Some (fs, fo, v) /\
+    (exists t, emit_literal true bs l = Some t /\ sql_lex d t = [TWord fs; TPunct 40; TString (tz_colon v); TPunct 41]) /\
+    (exists t, emit_literal false bs l = Some t /\ sql_lex d t = [TWord fo; TString v]).
+Proof.
+  intro H. pose proof (date_token_safe s l r H) as S.
+  assert (forall fs fo v, forallb safe_char v = true ->
+            sql_lex d (fs ++ [40]) = [TWord fs; TPunct 40] -> closed_prefix d (fs ++ [40]) = true ->
+            sql_lex d (fo ++ [32]) = [TWord fo] -> closed_prefix d (fo ++ [32]) = true ->
+            sql_lex d (emit_datetime true fs fo v) = [TWord fs; TPunct 40; TString (tz_colon v); TPunct 41] /\
+            sql_lex d (emit_datetime false fs fo v) = [TWord fo; TString v]) as K.
+  { intros fs fo v Sv L1 C1 L2 C2. unfold emit_datetime. split.
+    - rewrite app_assoc.
+      rewrite (string_in_context d (tz_colon v) (fs ++ [40]) [41] (safe_chars_ok d _ (tz_colon_safe v Sv)) C1 eq_refl).
+      rewrite L1. reflexivity.
+    - rewrite app_assoc. rewrite <- (app_nil_r (emit_string v)).
+      rewrite (string_in_context d v (fo ++ [32]) [] (safe_chars_ok d _ Sv) C2 eq_refl).
+      rewrite L2. reflexivity. }
+  destruct l; try contradiction; eexists _, _, _; (split; [reflexivity|]);
+    match goal with |- (exists t, emit_literal true _ ?l = _ /\ _) /\ _ =>
+      cbn [emit_literal];
+      match goal with |- (exists t, Some (emit_datetime true ?fs ?fo ?v) = _ /\ _) /\ _ =>
+        destruct (K fs fo v S eq_refl eq_refl eq_refl eq_refl) as [K1 K2]; split; eexists; (split; [reflexivity|]); assumption
+      end
+    end.
+Qed.
+
+Lemma emit_rlit_of_lit sq bs l r : rlit_of_lit l = Some r -> emit_rlit sq bs r = emit_literal sq bs l.
+Proof. destruct l; cbn [rlit_of_lit]; intro H; try discriminate; injection H as <-; reflexivity. Qed.
+
 (* ------------------------------------------------------------------ compositions *)
 
 (* PRQL spelling -> value -> SQL text -> value read by the database: the same v.
